@@ -266,7 +266,10 @@ func TestC07(t *testing.T) {
 			}
 			if mode == "cli" && gen.Chance(rt, "invalid", 1, 4) {
 				bad := gen.Corrupt(rt, list[0], "bad")
-				if _, err := e.NewVersion(bad); err != nil && !strings.Contains(bad, "\x00") && bad != "" {
+				if gen.Chance(rt, "blank", 1, 5) {
+					bad = gen.Pick(rt, "blankv", "", " ", "\t", "  ", "\n")
+				}
+				if _, err := e.NewVersion(bad); err != nil && !strings.Contains(bad, "\x00") {
 					at := rapid.IntRange(0, len(list)).Draw(rt, "at")
 					l2 := append(append(append([]string{}, list[:at]...), bad), list[at:]...)
 					kc := known.Case{Check: "invalid", Eco: e.Name, Inputs: append([]string{bad}, l2...)}
